@@ -20,6 +20,7 @@ From Cedar Require Export ManifestRun.
 From Cedar Require Export EntJsonRun.
 From Cedar Require Export FfiRun.
 From Cedar Require Export TPERun.
+From Cedar Require Export SymLitRun.
 
 Definition dispatchers : list (string -> list sexp -> option sexp) :=
   [ run_core
@@ -40,6 +41,7 @@ Definition dispatchers : list (string -> list sexp -> option sexp) :=
   ; run_entjson
   ; run_ffi
   ; run_tpe
+  ; run_symlit
   ].
 
 Fixpoint dispatch (ds : list (string -> list sexp -> option sexp)) (cmd : string) (args : list sexp) : sexp :=
